@@ -722,8 +722,10 @@ func Run(c *hx.Ctx) error {
 		g.feats = map[string]bool{}
 		g.outOfDomain = false
 		switch k := r.Intn(100); {
-		case k < 62:
+		case k < 60:
 			runExpr(c, g, g.cond(2), false)
+		case k < 62:
+			runCut(c, g)
 		case k < 68:
 			runFields(c, g, g.fieldList())
 		case k < 69:
